@@ -1427,7 +1427,11 @@ class Kconfig(object):
                         if new_name:
                             new_sym = get_sym(new_name)
                             if new_sym and new_sym.nodes:
-                                if self._deprecated_options.is_inversion(name) and new_sym.orig_type == BOOL:
+                                if (
+                                    self._deprecated_options.is_inversion(name)
+                                    and new_sym.orig_type == BOOL
+                                    and val.startswith(("y", "n"))  # anything else is as invalid as under the new name
+                                ):
                                     val = "n" if val.startswith("y") else "y"
                                 log.note(
                                     f"{escape(filename)}:{linenr}: {self.config_prefix + name} was replaced with "
